@@ -43,7 +43,9 @@ def start():
 
     def on_start(code, offset):
         f = code.co_filename
-        if f.startswith(root):
+        # module bodies are left alone: a table module is one code object of thousands of lines, and every DISABLE
+        # re-instruments the whole object (quadratic: 30 s per interpreter); only functions are reported anyway
+        if f.startswith(root) and code.co_name != '<module>':
             try:
                 mon.set_local_events(tool, code, LINE)
             except Exception:
